@@ -7,16 +7,21 @@ META = {
         "l2item: free L2 tables are zeroed (asserted as post-condition of flush/put_used_table in l2cache), 4 L1 slots, cache of one used + "
         "one free table",
         "l2cache: scaled cluster_bits 6; used-list tail ->next points at the free head (get_free_table never clears it: reachable states only)",
+        "qcow2_layout: writer state as initialize_qcow2_image produces it for 16 blocks of 32 bytes (set up by the harness, decided by geom); "
+        "initialize/write_header/generic_write/flush_l2_cache/sync_refcount/free/check_zero_block cut to model stubs; at least one imaged "
+        "non-zero block. marktables: bitmap / inode table locations inside their own group (16 places each, or 0), MMP block in 13..16, "
+        "512-byte descriptors; ext2fs_descriptor_block_loc2 and ext2fs_bg_has_super real (C20)",
         "rawout/discover: fresh regular output file; library callees (bitmap test/mark, io read, inode scan, block iterator, "
         "quota_type2inum, ftruncate64, llseek, write) are recording stubs; mark_table_blocks and the two output writers cut in discover",
     ],
     "outside": [
-        "which blocks count as metadata beyond one inode's step: mark_table_blocks (superblock, descriptors, bitmaps, inode tables, MMP), "
+        "which blocks count as metadata beyond one inode's step and the table blocks of harness marktables (6 groups): "
         "the real inode scan and the real block iterator (what ext2fs_block_iterate3 reports for extent/indirect trees), backup "
         "superblock option; ext2fs_inode_has_valid_blocks2 is used as the oracle for 'has valid blocks'",
         "the raw writer's move mode (-O/-o/-p), progress output, -n, stdout output, check_buf (-c), scramble, install_image; block "
         "content in rawout is a tag (check_zero_block and generic_write cut there)",
-        "output_qcow2_meta_data_blocks' sequencing of update_refcount/add_l2_item/generic_write (flush_l2_cache itself: harness l2cache, scaled cluster), "
+        "output_qcow2_meta_data_blocks beyond 16 blocks / 4 L1 slots / one refcount table cluster, L1 slots whose first imaged block is not "
+        "their first block, a mid-run flush of a full L2 cache (> 512 tables); sync_refcount's and write_header's bytes; "
         "update_refcount/sync_refcount themselves (only the capacity they index into is checked)",
         "qcow2_write_raw_image's table walk (L1/L2 loop, offset > image_size skip, final size extension) beyond header validation and copy_data",
         "source filesystem never modified (C13), e2fsck/dumpe2fs equality on the image",
@@ -66,17 +71,18 @@ HARNESSES = [
          bound="1 KiB blocks, 512-byte descriptors (2 per block), 2-3 descriptor blocks = 4-6 groups of 8192 blocks, 2 inode table "
                "blocks per group; all feature words, s_first_meta_bg, MMP block, every descriptor's locations / flags / itable_unused symbolic"),
     dict(name="qcow2_layout", src="qcow2_layout.c",
-         funcs=["output_qcow2_meta_data_blocks", "initialize_qcow2_image", "init_refcount", "update_refcount", "add_l2_item",
-                "flush_l2_cache", "sync_refcount", "write_header", "generic_write", "check_zero_block"],
+         funcs=["output_qcow2_meta_data_blocks", "update_refcount", "add_l2_item", "get_free_table", "seek_set"],
+         cut_statics={"misc/e2image.c": ["initialize_qcow2_image", "write_header", "generic_write", "flush_l2_cache", "sync_refcount",
+                                         "free_qcow2_image", "check_zero_block"]},
          extra_src=["lib/ext2fs/blknum.c"],
-         configs=[{"NBLK": 12, "ZERO": 0, "ACTIVE": 7}], cbmc_flags=["--object-bits", "10"],
-         unwind=7,
-         unwindset=["main.%d:161" % i for i in range(8)] + ["output_qcow2_meta_data_blocks.0:14", "output_qcow2_meta_data_blocks.1:18",
-                    "put_l2_cache.0:6", "put_l2_cache.1:6", "init_l2_cache.0:6", "check_zero_block.0:34", "get_bits_from_size.0:7",
-                    "ref_be64.0:9", "ref_word_at.0:161", "write.0:161", "write.1:13", "write.2:4", "write.3:41", "io_channel_read_blk64.0:33", "flush_l2_cache.0:6"],
+         configs=[{"NBLK": 16, "ZERO": 0, "ACTIVE": 15}, {"NBLK": 16, "ZERO": 0x0220, "ACTIVE": 15}, {"NBLK": 16, "ZERO": 0, "ACTIVE": 13, "_tier": "thorough"}, {"NBLK": 12, "ZERO": 0, "ACTIVE": 7, "_tier": "thorough"}],
+         unwind=6,
+         unwindset=["main.%d:41" % i for i in range(8)] + ["output_qcow2_meta_data_blocks.0:10", "output_qcow2_meta_data_blocks.1:18",
+                    "vf_touch.0:41", "vf_account_refblock.0:41", "vf_account_refblock.1:17", "flush_l2_cache.0:6", "flush_l2_cache.1:41",
+                    "flush_l2_cache.2:6", "flush_l2_cache.3:6", "initialize_qcow2_image.0:6"],
          backends=["kissat", "default"],
-         bound="cluster = block = 32 bytes (4-entry L2 tables, 16-entry refcount blocks), 16 filesystem blocks, every subset imaged, "
-               "every subset all-zero; model file of 40 clusters"),
+         bound="cluster = block = 32 bytes (4-entry L2 tables, 16-entry refcount blocks), 16 filesystem blocks = 4 L1 slots; per query: which L1 "
+               "slots are touched (their first block imaged, the other three symbolic) and which blocks are all-zero; model file of 40 clusters"),
     dict(name="geom", src="geom.c", funcs=["initialize_qcow2_image", "init_refcount", "align_offset", "get_bits_from_size"],
          cut_statics=CUT, extra_src=["lib/ext2fs/blknum.c"],
          configs=[{"CB": cb} for cb in (10, 11, 12, 16)] + [{"CB": 10, "CHECK_CAPACITY": 1, "MAXLOG": 17}] + [{"CB": cb, "CHECK_CAPACITY": k} for k in (1, 2) for cb in (10, 11, 12, 16)],
